@@ -72,7 +72,9 @@ def run(ctx, tier):
                  ("I2", "state-override refusals and default-port elision in all four copies of parse_scheme"),
                  ("I3", "set_host_or_hostname refusals precede the first mutation, identical in both types"),
                  ("I4", "port writers"), ("I5", "scheme writers store lower-case schemes"),
-                 ("I6", "no refusal test is statically dead (compares a value against a constant it is known not to hold)")):
+                 ("I6", "no refusal test is statically dead (compares a value against a constant it is known not to hold)"),
+                 ("I7", "the opaque-path flag is raised only in the parser's opaque path state; elsewhere it is copied from "
+                        "another record or cleared")):
         ctx.rule(r, t)
     cfgs = C.configs_for(tier, thorough=["release", "devchecks", "amalgamated", "nopattern"])
     fxs = C.load_configs(ctx, cfgs)
@@ -252,8 +254,69 @@ def check_scheme_copies(ctx, fx, rule="I2"):
 
 
 
+def check_opaque_writers(ctx, fx):
+    """I7.  The Standard makes a path opaque in exactly one place (opaque path state).  A record whose flag is raised
+    anywhere else -- e.g. in file state, where the path is set to an empty *list* -- keeps its host while claiming an
+    opaque path, refuses set_pathname/set_host, and resolves relative references as if it could not be a base."""
+    from rules import statemachine
+    n = ntrue = 0
+    regions = {}
+    for f, m in statemachine.machines(fx):
+        if "OPAQUE_PATH" not in m.region:
+            ctx.broken("I7: no OPAQUE_PATH case in %s" % f["key"])
+        regions[f["key"]] = m.region["OPAQUE_PATH"]
+    for f in fx.functions:
+        if not C.first_party(f):
+            continue
+        live = None
+        for b in f["blocks"]:
+            for st in b["stmts"]:
+                for nd in X.stmt_nodes(st, local=True):
+                    if nd.get("k") != "assign":
+                        continue
+                    l = X.strip(nd["lhs"])
+                    if not (isinstance(l, dict) and l.get("k") == "member" and l.get("field") == "has_opaque_path"):
+                        continue
+                    if live is None:
+                        bl = {x["id"]: x for x in f["blocks"]}
+                        live, stack = set(), [f["entry"]]
+                        while stack:
+                            x = stack.pop()
+                            if x in live:
+                                continue
+                            live.add(x)
+                            stack.extend(e["to"] for e in bl[x]["succ"] if not e.get("pruned"))
+                    if b["id"] not in live:
+                        continue          # discarded by `if constexpr` / behind a return in this instantiation
+                    n += 1
+                    v = X.const_val(nd["rhs"])
+                    r = X.strip(nd["rhs"])
+                    where = st.get("loc", f["loc"]).replace("/repo/", "")
+                    key = "%s: %s" % (f["qname"].split("::")[-1] + ("<%s>" % statemachine.inst_tag(f) if f["key"] in regions else ""),
+                                      X.show(nd)[:70])
+                    if nd.get("op") != "=":
+                        ctx.fail("I7", key, "compound assignment to has_opaque_path", where=where)
+                    elif v is not None and v != 0:
+                        ntrue += 1
+                        ctx.check("I7", key, f["key"] in regions and b["id"] in regions[f["key"]],
+                                  "inside case state::OPAQUE_PATH",
+                                  "has_opaque_path is set to true outside the parser's opaque path state (the only state of "
+                                  "the Standard that makes a path opaque): the record keeps its host and list path but "
+                                  "reports an opaque path", where=where)
+                    elif v == 0:
+                        ctx.ok("I7", key, "cleared", where=where)
+                    else:
+                        copy = isinstance(r, dict) and r.get("k") == "member" and r.get("field") == "has_opaque_path"
+                        ctx.check("I7", key, copy, "copy of another record's flag",
+                                  "has_opaque_path is assigned `%s`: neither a constant nor another record's flag" % X.show(r)[:60],
+                                  where=where)
+    ctx.floor("I7", n, 10, "assignments to has_opaque_path")
+    ctx.floor("I7", ntrue, 3, "live assignments of true (OPAQUE_PATH state, one per parser instantiation)")
+
+
 def check(ctx, fx):
     check_dead_tests(ctx, fx)
+    check_opaque_writers(ctx, fx)
     # ---- I1 ----
     n1 = 0
     for cls in TYPES:
